@@ -1329,6 +1329,53 @@ def h_many(ctx, ks, transitive, msg_size=4096, one_code=False):
     return (k, out)
 
 
+def h_long_paths(ctx):
+    """valid-but-unusual: AS_PATHs around the 255-ASN limit of one segment (RFC 4271 4.3: the segment length is one octet), in
+    one or two AS_SEQUENCE segments, with and without an AS4_PATH beside them, on a 2-octet and on a 4-octet AS session.
+    On a 2-octet session with AS4_PATH the two are merged (RFC 6793 4.2.3) and the result is re-encoded: sizes are concrete,
+    the ASNs are symbolic.  The UPDATE is valid: it decodes, and only Notify may ever escape."""
+    asn4 = bool(ctx.choice('asn4-session', 2))
+    total = ctx.pick('asns', (254, 255, 256, 300, 510))
+    split = ctx.pick('segments', ('one', 'two'))
+    with_as4 = bool(ctx.choice('as4-path', 2))
+    if split == 'one' and total > 255:
+        ctx.assume(False, 'one segment holds at most 255 ASNs')
+    if asn4 and with_as4:
+        ctx.assume(False, 'AS4_PATH is not sent on a 4-octet session')
+    neg = session(asn4=asn4)
+    width = 4 if asn4 else 2
+    sizes = [total] if split == 'one' else [total - 56, 56] if total - 56 <= 255 else [255, total - 255]
+    path = []
+    first = ctx.bytes('asn0', width)
+    for si, n in enumerate(sizes):
+        path += [2, n]
+        for i in range(n):
+            path += list(first) if (si == 0 and i == 0) else list(((64512 + i) % 65000).to_bytes(width, 'big'))
+    attrs = [[0x40, 1, 1, 0], [0x50, 2] + list(len(path).to_bytes(2, 'big')) + path, NEXT_HOP]
+    if with_as4:
+        attrs.append([0xC0, 17, 6, 2, 1] + list(ctx.bytes('as4', 4)))
+        ctx.cover('merge')
+    body = K.mk(ctx, K.body([], attrs, [[24, 10, 0, 0]]))
+    reset_state()
+    try:
+        msg = Message.unpack(2, body, neg)
+        n_ann = len(msg.data.announces)
+        force(msg, neg)
+        out = 'decoded'
+    except Notify as n:
+        out = 'notify-%d/%d' % (n.code, n.subcode)
+        n_ann = 0
+    except Exception as e:
+        out = type(e).__name__
+        n_ann = 0
+    ctx.cover('ran')
+    if total > 255:
+        ctx.cover('more-than-255-asns')
+    ctx.check('valid-unusual-message-decoded', out == 'decoded' and n_ann == 1, sig='C03:unusual:long-as-path:%s:%s' % ('merge' if with_as4 else 'plain', out),
+              info={'asns': total, 'segments': sizes, 'as4-path': with_as4, 'asn4-session': asn4, 'outcome': out})
+    return (total, split, with_as4, asn4, out)
+
+
 # ---------------------------------------------------------------------------------------------------- units
 
 
@@ -1369,5 +1416,7 @@ def units(tier):
         for size in (4096, 65535):
             us.append(Unit('unusual/limit/%s/%d' % (kind, size), lambda ctx, size=size, tr=tr: h_limit(ctx, size, tr), reset=reset_state, must_cover=('asked',), weight=5))
         us.append(Unit('unusual/repeated/%s' % kind, lambda ctx, tr=tr: h_many(ctx, (2, 300, 1100, 1340), tr, one_code=True), reset=reset_state, must_cover=('ran',), weight=5))
+        if kind == 'transitive':
+            us.append(Unit('unusual/long-as-path', h_long_paths, reset=reset_state, hash_const=True, must_cover=('ran', 'merge', 'more-than-255-asns'), weight=20))
         us.append(Unit('unusual/many/%s' % kind, lambda ctx, tr=tr: h_many(ctx, (64, 200, 400) if not th else (64, 200, 400, 800, 1356), tr), reset=reset_state, must_cover=('ran',), weight=5))
     return us
